@@ -144,7 +144,8 @@ func (e Event) String() string {
 
 // Outcome is how one explored path ended.
 type Outcome struct {
-	Kind    string // "return", "panic", "fallthrough" (end of body), "loop" (cut: state pair repeated)
+	Kind    string // "return", "panic", "fallthrough" (end of body), "loop" (cut: state pair repeated); "break"/"continue" when a loop body is run on its own
+	Label   string // of a break/continue outcome
 	Values  []Val
 	Events  []Event
 	Assumed map[string]bool // conditions the path assumed (forks)
